@@ -406,7 +406,7 @@ func sequential(c *vh.Ctx) {
 	c.Gate("model_state_x_op_pairs_seen", len(seenAll) >= 150, fmt.Sprintf("%d (need >= 150)", len(seenAll)))
 
 	// random longer sequences with 3 owners x 3 kinds
-	n := c.N(20000, 400000)
+	n := c.N(20000, 150000)
 	alpha3 := alphabet(3, 3)
 	vh.Parallel(n, func(i int) {
 		if c.Skip("c12-random", i) {
@@ -518,7 +518,7 @@ var cacheModel = porcupine.Model{
 }
 
 func concurrent(c *vh.Ctx) {
-	n := c.N(600, 30000)
+	n := c.N(600, 12000)
 	var clock atomic.Int64
 	for i := 0; i < n; i++ {
 		if c.Skip("c12-concurrent", i) {
@@ -701,7 +701,7 @@ func (m *recordingMap) Delete(ctx context.Context, gvk schema.GroupVersionKind) 
 }
 
 func realMap(c *vh.Ctx) {
-	n := c.N(60, 1500)
+	n := c.N(60, 800)
 	mapper := meta.NewDefaultRESTMapper(nil)
 	for _, k := range kindsAll {
 		mapper.Add(k, meta.RESTScopeNamespace)
